@@ -27,7 +27,7 @@
      has_violation / goodb   the executable forms of `exists j, reach /\ violated` and `good` *)
 From PV Require Import Lib.Base Model.Schema Model.Validate Gen.SchemaTables
   Proofs.Schema_lemmas Proofs.Validate_lemmas Proofs.Validate_table Proofs.Validate_anchor
-  Model.Duration Proofs.Duration_lemmas.
+  Model.Duration Proofs.Duration_lemmas Model.ValidateDeep.
 Open Scope N_scope.
 
 (* ---------------------------------------------------------------- rejection *)
